@@ -198,6 +198,19 @@ def check_d2s(ctx, cls):
         spec_equal(ctx, "C05.f SPEC-EQ", "CollectiveAnomalyDetector|dense_to_sparse", fm[0].loc(), [valkey(x) for x in arg.zip_parts[:2]], "collective_intervals", "anomalies = maximal runs of one positive label, [first, last + 1)")
     if cls.name == "SubsetCollectiveAnomalyDetector" and isinstance(arg, ListV):
         aps = [e for e in p.events if e.kind == "list_append" and e.data["lst"] is arg and isinstance(e.data["value"], TupleV)]
+        if aps and aps[0].loops:
+            # anomalies are listed in increasing label order (label k is the k-th anomaly of predict): the labels are visited
+            # in sorted order - np.unique sorts by contract; pd.unique / Series.unique keep the order of first appearance
+            over = aps[0].loops[-1].info.get("over")
+            ok_ = valkey(over) if over is not None else ""
+            sorted_src = ("unique(" in ok_ and "pandas.unique" not in ok_ and ".unique()" not in ok_) or "sorted(" in ok_ or "numpy.sort(" in ok_
+            unsorted_src = "pandas.unique" in ok_ or ".unique()" in ok_ or "drop_duplicates" in ok_
+            if sorted_src and not unsorted_src:
+                ctx.holds("C05.d LABEL-SENSITIVE", "SubsetCollectiveAnomalyDetector|label-order", aps[0].loc(), "labels are visited in increasing order (np.unique / sorted): anomaly k of the output is the one labelled k")
+            elif unsorted_src:
+                ctx.violation("C05.d LABEL-SENSITIVE", "SubsetCollectiveAnomalyDetector|label-order", aps[0].loc(), "labels are visited in order of first appearance (pd.unique / Series.unique), not in increasing order: anomalies come out permuted when a later anomaly touches an earlier column", found=ok_[:160], expected="np.unique(...) or sorted(...)")
+            else:
+                ctx.undecided("C05.d LABEL-SENSITIVE", "SubsetCollectiveAnomalyDetector|label-order", aps[0].loc(), "cannot tell in which order the labels are visited", found=ok_[:160])
         if aps:
             spec_equal(ctx, "C05.f SPEC-EQ", "SubsetCollectiveAnomalyDetector|dense_to_sparse", aps[0].loc(), [_vkey(x) for x in aps[0].data["value"].items], "subset_intervals", "one anomaly per positive label: (first labelled row, last labelled row + 1, labelled columns)")
     # ------------------------------------------------------------ LABEL-SENSITIVE
